@@ -19,7 +19,7 @@ From V.proofs Require Import MapperDecode MapperFrame MapperFootprint MapperHw M
    for writes (65,536 addresses each, by computation) ---- *)
 Theorem C06_decoder : forall a, a < 65536 ->
   read_handler a = handler_of (spec_region a) /\ write_handler a = handler_of (spec_region a).
-Proof. intros a H. split; [exact (decode_read_ok a H) | exact (decode_write_ok a H)]. Qed.
+Proof. exact decoder_ok. Qed.
 Print Assumptions C06_decoder.
 
 (* the Go arrays behind C000-DFFF and FF80-FFFE cover their regions *)
@@ -86,7 +86,7 @@ Print Assumptions C06_fea0_reads_zero.
    to them leaves the whole machine state as it was *)
 Theorem C06_unmapped_ff_ignored : forall (s : sys) (a v : N),
   a < 65536 -> is_unmapped a = true -> peek s a = Ok 255 /\ sys_write s a v = Ok s.
-Proof. intros s a v Ha Hu. split; [exact (unmapped_reads_ff s a Ha Hu) | exact (unmapped_write s a v Ha Hu)]. Qed.
+Proof. exact unmapped_ff_ignored. Qed.
 Print Assumptions C06_unmapped_ff_ignored.
 
 (* ---- registers ---- *)
@@ -126,11 +126,7 @@ Print Assumptions C06_register_unwritten.
 Theorem C06_dma_readback : forall (s : sys) (h : list bop) (s' : sys) (v : N),
   forallb wf_bop h = true -> bus_run s h = Ok s' -> last_written 0xFF46 h = Some v -> v < 256 ->
   peek s' 0xFF46 = Ok v.
-Proof.
-  intros s h s' v Hwf Hr Hl Hv. change 0xFF46 with (reg_addr R_DMA) in *.
-  rewrite (register_masks R_DMA s h s' v 0xFF 0x00 eq_refl eq_refl Hwf Hr Hl Hv). f_equal.
-  rewrite N.lor_0_r. change 0xFF with (N.ones 8). rewrite N.land_ones. apply N.mod_small. exact Hv.
-Qed.
+Proof. exact dma_readback. Qed.
 Print Assumptions C06_dma_readback.
 
 (* IF: bits 7-5 read 1; the five request bits are the last byte written & 1F plus whatever the hardware raised since
@@ -164,7 +160,7 @@ Print Assumptions C06_joyp_register.
 Theorem C06_ly_div_not_writable : forall (s : sys) (v : N),
   (sys_write s 0xFF44 v = sys_write s 0xFF44 0 /\ exists s', sys_write s 0xFF44 v = Ok s' /\ peek s' 0xFF44 = Ok 0) /\
   (sys_write s 0xFF04 v = sys_write s 0xFF04 0 /\ exists s', sys_write s 0xFF04 v = Ok s' /\ peek s' 0xFF04 = Ok 0).
-Proof. intros s v. split; [exact (ly_write_zero s v) | exact (div_write_zero s v)]. Qed.
+Proof. exact ly_div_not_writable. Qed.
 Print Assumptions C06_ly_div_not_writable.
 
 (* SB and SC of this emulator read FF in every state *)
@@ -175,7 +171,7 @@ Print Assumptions C06_serial_reads_ff.
 (* the well-formedness hypotheses hold after construction *)
 Theorem C06_power_on_wf : forall img ser aud c s0, sys_new img ser aud = Ok (c, s0) ->
   dma_idle s0 = true /\ ifl (s_ints s0) < 32 /\ p_mode (s_ppu s0) < 4.
-Proof. intros img ser aud c s0 H. destruct (new_abs _ _ _ _ _ H) as (A & _ & _ & B & C). repeat split; assumption. Qed.
+Proof. exact power_on_wf. Qed.
 Print Assumptions C06_power_on_wf.
 
 (* non-vacuity: a machine is constructed from the demo image, and a history with an echo write, a register write
